@@ -9,7 +9,8 @@ PROMO = {"int": ["long", "float", "double"], "long": ["float", "double"], "float
          "string": ["bytes"], "bytes": ["string"]}
 DEMOTE = {"long": ["int"], "double": ["float", "long"], "float": ["int", "long"], "boolean": ["int"], "int": ["boolean", "string"],
           "string": ["int"], "bytes": ["long"], "null": ["int"]}
-SAFE_DEFAULT = {"null": None, "boolean": True, "int": 7, "long": -9, "float": 0.5, "double": 2.5, "string": "dflt"}
+SAFE_DEFAULT = {"null": None, "boolean": True, "int": 7, "long": -9, "float": 0.5, "double": 2.5, "string": "dflt",
+                "bytes": "\u00ff\u0000a"}
 
 
 def positions(js, ns="", path=(), depth=0):
